@@ -96,11 +96,13 @@ def parse_match(text):
         )
 
     restrictions = []
+    slot_globbed = False
     if "::" in text:
         text, repo_id = text.rsplit("::", 1)
         restrictions.append(restricts.RepositoryDep(repo_id))
     if ":" in text:
         text, slot = text.rsplit(":", 1)
+        slot_globbed = "*" in slot
         slot, _sep, subslot = slot.partition("/")
         if slot:
             if "*" in slot:
@@ -147,12 +149,12 @@ def parse_match(text):
             return r[0]
         restrictions.extend(r)
         return packages.AndRestriction(*restrictions)
-    elif text[0] in atom.valid_ops or "*" not in text:
+    elif text[0] in atom.valid_ops or not ("*" in text or slot_globbed):
         # possibly a valid atom object
         try:
             return atom.atom(orig_text)
         except errors.MalformedAtom as e:
-            if "*" not in text:
+            if not ("*" in text or slot_globbed):
                 raise ParseError(str(e)) from e
             # support globbed targets with version restrictions; keep the
             # slot/subslot/repo restrictions split off above
